@@ -526,3 +526,69 @@ class dematerialize:
             else:
                 return out, "completed"
         return out, t
+
+
+class pluck:
+    """[x[key] for x in h]"""
+
+    def init(s):
+        s.failed = False
+
+    def done(s):
+        return s.failed
+
+    def on_next(s, out, x):
+        try:
+            y = x[s.key]
+        except Exception as e:
+            s.failed = True
+            out.on_error(e)
+            return
+        out.on_next(y)
+
+    @staticmethod
+    def ref(h, t, key):
+        out = []
+        for x in h:
+            try:
+                out.append(x[key])
+            except Exception as e:
+                return out, ("error", e)
+        return out, t
+
+
+class starmap:
+    """list(itertools.starmap(mapper, h)); without a mapper the tuples pass unchanged"""
+
+    def init(s):
+        s.failed = False
+
+    def done(s):
+        return s.failed
+
+    def on_next(s, out, x):
+        if s.mapper is None:
+            out.on_next(x)
+            return
+        try:
+            y = s.mapper(*x)
+        except Exception as e:
+            s.failed = True
+            out.on_error(e)
+            return
+        out.on_next(y)
+
+    @staticmethod
+    def ref(h, t, mapper):
+        import itertools
+        if mapper is None:
+            return list(h), t
+        out = []
+        it = itertools.starmap(mapper, h)
+        while True:
+            try:
+                out.append(next(it))
+            except StopIteration:
+                return out, t
+            except Exception as e:
+                return out, ("error", e)
